@@ -34,6 +34,7 @@ var lexReps = []lexeme{
 	{[]lexTok{{"ascii", "STRINGTYPE", "ascii"}, {`"z"`, "STRING", "z"}}},
 	lx("`r1\n r2`", "RAWSTRING", "r1\n r2"),
 	lx("\"a\"\n  \"b\"", "STRING", "a\nb"),
+	lx("\"p\n   q\"", "STRING", "p q"), lx("\"t\r\n\"", "STRING", "t "), lx(`"a # b"`, "STRING", "a # b"), lx(`"//c"`, "STRING", "//c"),
 	lx("==", "==", "=="), lx("!=", "!=", "!="), lx("<=", "<=", "<="), lx(">=", ">=", ">="), lx("&&", "&&", "&&"), lx("||", "||", "||"),
 	lx("=", "=", "="), lx("<", "<", "<"), lx(">", ">", ">"), lx("!", "!", "!"), lx("*", "*", "*"),
 	lx("(", "(", "("), lx(")", ")", ")"), lx("{", "{", "{"), lx("}", "}", "}"), lx("[", "[", "["), lx("]", "]", "]"), lx(",", ",", ","), lx(":", ":", ":"),
